@@ -187,7 +187,7 @@ def differential(tterm, value, ctx, obj):
         if not subs and kind == "py-raises-fast-accepts":
             fam, a = blame(tterm, value, ctx, obj, py)
             if fam is not None:
-                return [("compound-alternative-raises:%s:%s" % (fam, py[4:]),
+                return [("compound-alternative-raises:%s" % fam,
                          "%s on %s: Python validate of alternative %s raises %s out of the compound, "
                          "the fast path moves on to the next alternative and accepts" % (
                              V.show_sexp(tterm), V.show_value(value, ctx), V.show_sexp(a), py[4:]))], fast, py
